@@ -9,6 +9,7 @@ import (
 	"strings"
 	"sync"
 	"testing"
+	"time"
 
 	"github.com/go-kit/log"
 	"github.com/prometheus/client_golang/prometheus"
@@ -23,6 +24,7 @@ import (
 	"github.com/grafana/dskit/ring"
 	"github.com/grafana/dskit/services"
 
+	"verifharness/internal/model"
 	"verifharness/internal/vx"
 )
 
@@ -60,9 +62,10 @@ func (s scenario) String() string {
 }
 
 type env struct {
-	client  kv.Client
-	closers []io.Closer
-	mkvs    []*memberlist.KV
+	client    kv.Client
+	secondary kv.Client // multi wrapper: the store the primary's writes are mirrored to
+	closers   []io.Closer
+	mkvs      []*memberlist.KV
 }
 
 func (e *env) close() {
@@ -117,6 +120,7 @@ func newEnv(sc scenario) (*env, error) {
 		if err != nil {
 			return nil, err
 		}
+		e.secondary = sec
 		c = kv.VerifNewMultiClient(kv.MultiConfig{MirrorEnabled: true}, sc.Backend, c, other, sec, log.NewNopLogger(), nil)
 	case "prefix+metrics":
 		c = kv.VerifMetricsClient(sc.Backend, kv.PrefixClient(c, "pfx/"), prometheus.NewRegistry())
@@ -126,11 +130,12 @@ func newEnv(sc scenario) (*env, error) {
 }
 
 type outcome struct {
-	failure    string
-	races      int
-	branching  []int // number of choices at each step (for exhaustive exploration)
-	commits    int
-	incomplete bool
+	failure       string
+	races         int
+	branching     []int // number of choices at each step (for exhaustive exploration)
+	commits       int
+	incomplete    bool
+	mirrorChecked bool
 }
 
 // execute runs the callers under the schedule: at each step the plan picks among "start a caller not
@@ -162,6 +167,8 @@ func execute(t *testing.T, sc scenario) (out outcome) {
 			in         int64
 		}
 		var commits []commit
+		attemptOut := map[string]string{} // value produced by some attempt -> which
+		committedOut := map[string]bool{} // values produced by the attempts that committed
 		notWritten := map[string]bool{}
 		started := map[int]bool{}
 		var wg sync.WaitGroup
@@ -189,6 +196,7 @@ func execute(t *testing.T, sc scenario) (out outcome) {
 			defer wg.Done()
 			for o, kind := range sc.Kinds[c] {
 				var lastIn int64 = -1
+				var lastOut string
 				wrote := false
 				attempts := 0
 				err := client.CAS(ctx, "k", func(in interface{}) (interface{}, bool, error) {
@@ -207,6 +215,9 @@ func execute(t *testing.T, sc scenario) (out outcome) {
 						return nil, false, fmt.Errorf("boom")
 					case kind == "failretry" && attempts <= 2:
 						return nil, true, fmt.Errorf("retry me")
+					case kind == "incOnce" && attempts > 1:
+						// wrote on the first attempt, lost the race, and on the retry sees no need any more
+						return nil, false, nil
 					}
 					d := ring.GetOrCreateRingDesc(in)
 					cnt := d.Ingesters["counter"]
@@ -215,11 +226,16 @@ func execute(t *testing.T, sc scenario) (out outcome) {
 					d.Ingesters["counter"] = cnt
 					d.Ingesters[fmt.Sprintf("op-%d-%d", c, o)] = ring.InstanceDesc{Timestamp: 1, Addr: "x"}
 					wrote = true
+					mu.Lock()
+					attemptOut[model.CanonDesc(d)] = fmt.Sprintf("caller %d op %d attempt %d", c, o, attempts)
+					lastOut = model.CanonDesc(d)
+					mu.Unlock()
 					return d, true, nil
 				})
 				mu.Lock()
 				if err == nil && wrote {
 					commits = append(commits, commit{c, o, lastIn})
+					committedOut[lastOut] = true
 				} else {
 					notWritten[fmt.Sprintf("op-%d-%d", c, o)] = true
 				}
@@ -352,6 +368,23 @@ func execute(t *testing.T, sc scenario) (out outcome) {
 		if len(final.Ingesters) != want {
 			fail("final value has %d entries %v, want %d", len(final.Ingesters), names(final), want)
 		}
+		// the mirror only ever receives values that a successful call wrote (mirroring is best effort and
+		// may lag or be reordered, but a value no successful call produced must never appear there)
+		if e.secondary != nil {
+			time.Sleep(5 * time.Second)
+			vx.Wait()
+			sv, err := e.secondary.Get(ctx, "k")
+			if err == nil && sv != nil {
+				got := model.CanonDesc(sv.(*ring.Desc))
+				mu.Lock()
+				okc, who := committedOut[got], attemptOut[got]
+				mu.Unlock()
+				if !okc && !(sc.Seed && len(sv.(*ring.Desc).Ingesters) == 1) {
+					fail("the mirror store holds %s, which no successful call wrote (produced by: %s)", got, who)
+				}
+				out.mirrorChecked = true
+			}
+		}
 	})
 	return out
 }
@@ -366,7 +399,7 @@ func names(d *ring.Desc) []string {
 }
 
 var backends = []string{"consul", "etcd", "memberlist"}
-var wrappers = []string{"bare", "bare", "prefix", "metrics", "multi", "prefix+metrics"}
+var wrappers = []string{"bare", "bare", "prefix", "metrics", "multi", "multi", "prefix+metrics"}
 
 func TestCASSchedulesRapid(t *testing.T) {
 	rapid.Check(t, func(rt *rapid.T) {
@@ -376,7 +409,7 @@ func TestCASSchedulesRapid(t *testing.T) {
 		for c := 0; c < nCallers; c++ {
 			var ks []string
 			for o := 0; o < nOps; o++ {
-				ks = append(ks, rapid.SampledFrom([]string{"inc", "inc", "inc", "inc", "decline", "fail", "failretry"}).Draw(rt, "kind"))
+				ks = append(ks, rapid.SampledFrom([]string{"inc", "inc", "inc", "inc", "decline", "fail", "failretry", "incOnce", "incOnce"}).Draw(rt, "kind"))
 			}
 			sc.Kinds = append(sc.Kinds, ks)
 		}
@@ -408,7 +441,7 @@ func TestCASSchedulesExhaustive(t *testing.T) {
 		}
 		return
 	}
-	kindSets := [][][]string{{{"inc"}, {"inc"}}, {{"inc", "inc"}, {"inc"}}, {{"inc"}, {"decline", "inc"}}, {{"failretry"}, {"inc"}}, {{"inc", "inc"}, {"inc", "inc"}}, {{"inc"}, {"inc"}, {"inc"}}, {{"fail", "inc"}, {"inc", "decline"}}}
+	kindSets := [][][]string{{{"inc"}, {"inc"}}, {{"inc", "inc"}, {"inc"}}, {{"inc"}, {"decline", "inc"}}, {{"failretry"}, {"inc"}}, {{"inc", "inc"}, {"inc", "inc"}}, {{"inc"}, {"inc"}, {"inc"}}, {{"fail", "inc"}, {"inc", "decline"}}, {{"incOnce"}, {"inc"}}, {{"incOnce", "inc"}, {"incOnce"}}}
 	if vx.Thorough() {
 		kindSets = append(kindSets, [][]string{{"inc", "inc", "inc"}, {"inc", "inc"}}, [][]string{{"inc", "inc"}, {"inc"}, {"inc"}}, [][]string{{"inc"}, {"inc"}, {"inc"}, {"inc"}})
 	}
